@@ -318,7 +318,14 @@ theorem valid_ip_spec (gai : Str → Gai) (s : Str)
     simp only [Spec.isIpChar, isHexDigit, isDigit, Bool.or_eq_true, Bool.and_eq_true, decide_eq_true_eq] at this
     omega
   have he : s.isEmpty = false := by cases s <;> simp_all
-  simp [isValidIp, he, h0, hasc, hn]
+  have hz : (zoneId s).contains 58 = false := by
+    have h37 : 37 ∉ s := by
+      intro hm'
+      have := List.all_eq_true.mp hall 37 hm'
+      revert this; decide
+    simp [zoneId, splitFirst_none_of_not_mem 37 s h37]
+  have hz' : 58 ∉ zoneId s := by simpa using hz
+  simp [isValidIp, he, h0, hasc, hn, hz']
 
 example : Spec.plainIP (ofAscii "1.2.3.4") = true ∧ Spec.plainIP (ofAscii "2001:db8::ff") = true ∧
     Spec.plainIP (ofAscii "::ffff:1.2.3.4") = true ∧ Spec.plainIP (ofAscii "1.2.3.256") = false ∧
@@ -335,7 +342,9 @@ theorem valid_ip_noname (gai : Str → Gai) (s : Str) (h : gai s = .noname) : is
   unfold isValidIp
   split
   · rfl
-  · simp [h]
+  · split
+    · rfl
+    · simp [h]
 
 /-- after the `fix:` commit an accepted string is non-empty ASCII text without NUL -/
 theorem valid_ip_ascii (gai : Str → Gai) (s : Str) (h : isValidIp gai s = .ok true) :
@@ -344,6 +353,7 @@ theorem valid_ip_ascii (gai : Str → Gai) (s : Str) (h : isValidIp gai s = .ok 
   split at h
   · simp at h
   · rename_i hc
+    clear h
     simp only [Bool.or_eq_true, Bool.not_eq_true', not_or, Bool.not_eq_true, Bool.not_eq_false] at hc
     refine ⟨?_, ?_, ?_⟩
     · intro e; subst e; simp at hc
@@ -362,7 +372,7 @@ theorem valid_ip_plain_resolver (gai : Str → Gai) (s : Str) (hp : Spec.plainIP
       | .unicodeError => .ok false) := by
   obtain ⟨he, h0, ha⟩ := plainIP_prechecks s hp
   have hc : s.contains 0 = false := by simpa using h0
-  simp only [isValidIp, he, hc, ha, Bool.not_true, Bool.or_self, Bool.false_eq_true, if_false]
+  simp only [isValidIp, he, hc, ha, plainIP_zone s hp, Bool.not_true, Bool.or_self, Bool.false_eq_true, if_false]
   cases gai s <;> rfl
 
 /-- "rejects host names": given the resolver contract "a host name is not numeric: EAI_NONAME under AI_NUMERICHOST",
